@@ -1,21 +1,21 @@
 SPECIFICATION Spec
 CONSTANTS
-  Pair = "LLTEM"
-  MaxDepth = 4
-  MaxCopies = 2
-  MaxEdits = 1
+  Pair = "DC"
+  MaxDepth = 3
+  MaxCopies = 1
+  MaxEdits = 2
   MaxReopens = 1
-  EditOps = {"channels", "timing_mark"}
-  CopyModes = {"plain-same", "mask-same", "extent-same", "plain-other", "extent-other"}
-  MaskNames = {"lo", "mid"}
+  EditOps = {}
+  CopyModes = {"plain-same", "extent-same"}
+  MaskNames = {"lo"}
   Focus = TRUE
   BadValues = FALSE
-  ValuesPerOp = 1
-  EditWhen = "copied"
+  ValuesPerOp = 2
+  EditWhen = "always"
   Extras = 0
-  IdInGroup = FALSE
+  IdInGroup = TRUE
   InGroup = FALSE
-  Deviations = {}
+  Deviations = {"CopyFailsOnGroupedIdData"}
 VIEW vw
 INVARIANT Mutual
 INVARIANT BothIds
@@ -32,6 +32,4 @@ PROPERTY EditIsLocal
 PROPERTY RefusedIsNoop
 PROPERTY ValidEditsAccepted
 PROPERTY GroupCopyOnce
-INVARIANT ExportState
-ACTION_CONSTRAINT ExportTrans
 CHECK_DEADLOCK FALSE
